@@ -8,6 +8,7 @@ import (
 	"strconv"
 	"strings"
 	"unicode"
+	"unicode/utf16"
 	"unicode/utf8"
 
 	"github.com/robertkrimen/otto/ast"
@@ -728,6 +729,17 @@ func parseStringLiteral(literal string) (string, error) {
 	str := literal
 	buffer := bytes.NewBuffer(make([]byte, 0, 3*len(literal)/2))
 
+	// A \u escape that is a high surrogate waits here for a low surrogate escape: together they
+	// denote one supplementary character (strings are sequences of UTF-16 code units). Alone it
+	// is written like any other unrepresentable code unit (U+FFFD).
+	var pendingHigh rune
+	flushHigh := func() {
+		if pendingHigh != 0 {
+			buffer.WriteRune(pendingHigh)
+			pendingHigh = 0
+		}
+	}
+
 	for len(str) > 0 {
 		switch chr := str[0]; {
 		// We do not explicitly handle the case of the quote
@@ -735,10 +747,12 @@ func parseStringLiteral(literal string) (string, error) {
 		// This assumes we're already passed a partially well-formed literal
 		case chr >= utf8.RuneSelf:
 			chr, size := utf8.DecodeRuneInString(str)
+			flushHigh()
 			buffer.WriteRune(chr)
 			str = str[size:]
 			continue
 		case chr != '\\':
+			flushHigh()
 			buffer.WriteByte(chr)
 			str = str[1:]
 			continue
@@ -749,6 +763,7 @@ func parseStringLiteral(literal string) (string, error) {
 		}
 		chr := str[1]
 		var value rune
+		unicodeEscape := chr == 'u'
 		if chr >= utf8.RuneSelf {
 			str = str[1:]
 			var size int
@@ -840,8 +855,19 @@ func parseStringLiteral(literal string) (string, error) {
 				value = rune(chr)
 			}
 		}
-		buffer.WriteRune(value)
+		switch {
+		case unicodeEscape && pendingHigh != 0 && utf16.IsSurrogate(value) && value >= 0xdc00:
+			buffer.WriteRune(utf16.DecodeRune(pendingHigh, value))
+			pendingHigh = 0
+		case unicodeEscape && utf16.IsSurrogate(value) && value < 0xdc00:
+			flushHigh()
+			pendingHigh = value
+		default:
+			flushHigh()
+			buffer.WriteRune(value)
+		}
 	}
+	flushHigh()
 
 	return buffer.String(), nil
 }
